@@ -219,30 +219,30 @@ def count_lines(path):
 
 
 def split_file(path, nshards, outprefix, boundary=None):
-    """Split an ndjson file into nshards files at execution boundaries. boundary: bytes that a line
-    must start with to begin a new execution (None: any line)."""
-    lines = open(path, "rb").read().splitlines(keepends=True)
-    if not lines:
+    """Split an ndjson file into about nshards files at execution boundaries (streaming: traces can be gigabytes).
+    boundary: bytes a line must start with to begin a new execution (None: any line). Returns [(file, first line, lines)]."""
+    total = count_lines(path)
+    if total == 0:
         return []
-    starts = [i for i, l in enumerate(lines) if boundary is None or l.startswith(boundary)]
-    if not starts or starts[0] != 0:
-        starts = [0] + starts
-    per = max(1, len(lines) // nshards)
-    shards, cur, nxt = [], 0, per
-    cuts = [0]
-    for s in starts:
-        if s >= nxt:
-            cuts.append(s)
-            nxt = s + per
-    cuts.append(len(lines))
-    out = []
-    for k in range(len(cuts) - 1):
-        if cuts[k] == cuts[k + 1]:
-            continue
-        fn = "%s.%d.ndjson" % (outprefix, k)
-        with open(fn, "wb") as f:
-            f.writelines(lines[cuts[k]:cuts[k + 1]])
-        out.append((fn, cuts[k], cuts[k + 1] - cuts[k]))
+    per = max(1, total // nshards)
+    out, k, n_in, first = [], 0, 0, 0
+    fo = None
+    with open(path, "rb") as f:
+        for i, l in enumerate(f):
+            start = boundary is None or l.startswith(boundary)
+            if fo is None or (n_in >= per and start and len(out) + 1 < nshards + 8):
+                if fo is not None:
+                    fo.close()
+                    out.append((fn, first, n_in))
+                fn = "%s.%d.ndjson" % (outprefix, k)
+                k += 1
+                fo = open(fn, "wb")
+                first, n_in = i, 0
+            fo.write(l)
+            n_in += 1
+    if fo is not None:
+        fo.close()
+        out.append((fn, first, n_in))
     return out
 
 
@@ -259,7 +259,7 @@ def _tlc_trace_once(run, module, cfg, tracefile, nlines, env, timeout, tag, mem=
 
 
 def tracecheck(run, module, tracefile, cfg=None, shards=None, boundary=b'{"e":"Reset"', env=None,
-               timeout=900, max_rejects=5):
+               timeout=3600, max_rejects=5):
     """Validate an ndjson trace against spec/<module>.tla. Returns dict(lines, accepted_lines,
     executions, rejects=[{line, text, exec_lines}]). A rejection is confirmed by re-running TLC on
     the enclosing execution alone; the remainder is validated with that execution removed."""
